@@ -158,6 +158,34 @@ def metered(fn, budget: int, fingerprints: bool = False, wall_limit: float = 0.0
     return r, ctx.used
 
 
+_LIVE_SDS: list = []
+
+
+def track_diagrams():
+    """Remember the last few SuccessionDiagrams constructed from now on (the class has __slots__ without
+    __weakref__, so these are strong references in a short ring that each case clears), so that a work bound
+    can use the current size of the diagram an operation is building (`SuccessionDiagram.build` creates its own)."""
+    if getattr(SuccessionDiagram, "_vf_tracked", False):
+        return
+    orig = SuccessionDiagram.__init__
+
+    def __init__(self, *a, **k):
+        del _LIVE_SDS[:-7]
+        _LIVE_SDS.append(self)
+        return orig(self, *a, **k)
+
+    SuccessionDiagram.__init__ = __init__
+    SuccessionDiagram._vf_tracked = True
+
+
+def live_nodes() -> int:
+    m = 1
+    for s in _LIVE_SDS:
+        if hasattr(s, "dag"):
+            m = max(m, s.dag.number_of_nodes())
+    return m
+
+
 def budget_for(ref_or_n, nodes: int = 1) -> int:
     n = ref_or_n if isinstance(ref_or_n, int) else ref_or_n.n
     return default_budget(n, nodes)
